@@ -869,22 +869,141 @@ def count_item(isa, item, R, prefix=""):
             R.count(prefix + "line:%s+trailing-comment" % k)
 
 
+def a64_mem_form(m):
+    if m["index"]:
+        return "idx" if not m["ext"] else ("idx-ext" if m["ext"][1] is not None else "idx-ext-noamount")
+    return "pre" if m["pre"] else ("post" if m["post"] else ("off" if m["offset"] else "base"))
+
+
+def _simpler(isa, op):
+    """Candidate simplifications of one operand (classifier only), most drastic first."""
+    k = op["k"]
+    out = []
+    if isa == "x86":
+        if k == "reg" and op["name"] != "rax":
+            out.append({"k": "reg", "name": "rax", "cls": "g64"})
+        elif k == "imm" and op["txt"] != "1":
+            out.append({"k": "imm", "value": 1, "txt": "1", "cls": "dec+"})
+        elif k in ("id", "immid") and op["name"] != "foo":
+            out.append({"k": k, "name": "foo"})
+        elif k == "mem":
+            if op["disp"] is not None:
+                out.append(dict(op, disp=None))
+                if op["disp"].get("txt") != "8":
+                    out.append(dict(op, disp={"value": 8, "txt": "8", "cls": "dec+"}))
+            if op["index"]:
+                out.append(dict(op, index=None, scale=None))
+                if op["scale"] is not None:
+                    out.append(dict(op, scale=None))
+                if op["index"] != "rcx":
+                    out.append(dict(op, index="rcx"))
+            if op["base"]:
+                out.append(dict(op, base=None))
+                if op["base"] != "rax":
+                    out.append(dict(op, base="rax"))
+            out = [m for m in out if m["base"] or m["index"] or m["disp"]]
+        return out
+    plain = _reg("x", 1, "gpr", False)
+    if k == "reg" and (op["prefix"], op["name"], op.get("shape"), op.get("up")) != ("x", "1", None, False):
+        if op.get("up"):
+            out.append(dict(op, up=False))
+        out.append(plain)
+    elif k == "list":
+        if op["up"]:
+            out.append(dict(op, up=False, members=[dict(m, up=False) for m in op["members"]]))
+        if op["index"] is not None:
+            out.append(dict(op, index=None, members=[dict(m, index=None, cls="vec") for m in op["members"]]))
+        if op["style"] == "range":
+            out.append(dict(op, style="list"))
+        if len(op["members"]) > 1 and op["style"] == "list":
+            out.append(dict(op, members=op["members"][:1]))
+    elif k == "imm" and op["txt"] != "#1":
+        out.append({"k": "imm", "value": 1, "txt": "#1", "cls": "dec+/#"})
+    elif k == "fimm" and op["txt"] != "#1.0":
+        out.append({"k": "fimm", "mantissa": "1.0", "esign": None, "exp": None, "suffix": "", "txt": "#1.0", "cls": "plain/#"})
+    elif k == "cc" and op["txt"] != "ne":
+        out.append({"k": "cc", "code": "ne", "txt": "ne"})
+    elif k == "id" and op["name"] != "foo":
+        out.append({"k": "id", "name": "foo"})
+    elif k == "mem":
+        one = {"value": 8, "txt": "#8", "cls": "dec+/#"}
+        if op["up"]:
+            out.append(dict(op, up=False))
+        if op["ext"]:
+            out.append(dict(op, ext=None, index=["x", op["index"][1]]))
+        if op["index"]:
+            out.append(dict(op, index=None, ext=None))
+        if op["offset"]:
+            out.append(dict(op, offset=None, pre=False))
+            if op["offset"]["txt"] != "#8":
+                out.append(dict(op, offset=one))
+        if op["pre"]:
+            out.append(dict(op, pre=False))
+        if op["post"]:
+            out.append(dict(op, post=None))
+            if op["post"]["txt"] != "#8":
+                out.append(dict(op, post=one))
+        if op["base"] != "x1":
+            out.append(dict(op, base="x1"))
+        for m in out:
+            m["form"] = a64_mem_form(m)
+    return out
+
+
+def _admissible(isa, ops):
+    """Operand order rules of the declared input class (so that a simplification is not rejected for another reason)."""
+    for i, o in enumerate(ops):
+        if isa == "x86":
+            if o["k"] == "id" and i > 0:
+                return False
+            if o["k"] == "mem" and i == 0 and not o["base"] and not o["index"]:
+                return False
+        else:
+            if i == 0 and o["k"] in ("cc", "imm", "fimm"):
+                return False
+            if o["k"] in ("mem", "cc") and i != len(ops) - 1:
+                return False
+    return True
+
+
 def unparsable_prefix(isa, parser, item):
-    """Classifier only: which operand (parsed on its own) is the one the parser rejects."""
+    """Classifier only: greedy minimisation of the rejected instruction (drop operands, simplify operands) -> key prefix."""
     import random
 
+    ctx = line_context(item)
     if item["kind"] != "instr":
-        return "%s/unparsable-%s-line%s/" % (isa, item["kind"], line_context(item))
-    ast = item["ast"]
-    rr = random.Random(0)
-    for o in ast["operands"]:
-        t = (x86_operand_text if isa == "x86" else a64_operand_text)(rr, o, False)
-        probe = ("mov %%rax, %s" if (isa == "x86" and o["k"] not in ("id",)) else "mov %s") % t if isa == "x86" else "mov x0, " + t
+        return "%s/unparsable-%s-line%s/" % (isa, item["kind"], ctx)
+
+    def fails(ops):
+        rr = random.Random(0)
+        texts = [(x86_operand_text if isa == "x86" else a64_operand_text)(rr, o, False) for o in ops]
         try:
-            parser.parse_line(probe, 1)
+            parser.parse_line("mov" + (" " + ", ".join(texts) if texts else ""), 1)
         except Exception:  # noqa - classification probe
-            return "%s/unparsable-operand[%s]/" % (isa, optag(isa, o))
-    return "%s/unparsable-combination[%s]/" % (isa, ",".join(o["k"] for o in ast["operands"]))
+            return True
+        return False
+
+    ops = list(item["ast"]["operands"])
+    if not fails(ops):
+        return "%s/unparsable-in-this-layout[sep=%s,tail=%s,%s]/" % (isa, item["lay"][1], item["lay"][2], item["lay"][3])
+    changed = True
+    while changed:
+        changed = False
+        for i in range(len(ops)):
+            cand = ops[:i] + ops[i + 1:]
+            if _admissible(isa, cand) and fails(cand):
+                ops, changed = cand, True
+                break
+    for i in range(len(ops)):
+        changed = True
+        while changed:
+            changed = False
+            for s in _simpler(isa, ops[i]):
+                cand = ops[:i] + [s] + ops[i + 1:]
+                if _admissible(isa, cand) and fails(cand):
+                    ops, changed = cand, True
+                    break
+    return "%s/unparsable[%s]/" % (isa, ", ".join(optag(isa, o) for o in ops))
 
 
 def _call(R, fn, *args):
